@@ -163,7 +163,13 @@ PROPS = {
              "count, key length and header-key length (varints); HTTP Content-Length, chunk size, HTTP/2 DATA and HEADERS frame lengths) is "
              "replaced by each of 15 boundary values (0, 1, remaining-1, remaining, remaining+1, 65535, 65536, the caps "
              "and cap+1, 30000000, INT32_MAX, -1, UINT32_MAX), each ended by a clean end of stream, by one read error, "
-             "and by a reader that fails forever; plus well-formed streams of 1..1000 (50000) messages; the real Dissect "
+             "and by a reader that fails forever; plus well-formed streams of 1..1000 (50000) messages; plus growth cases: "
+             "repeating shapes, well-formed and not (RESP commands / replies / one array of k elements / k nested arrays; AMQP "
+             "k body frames after a content header announcing the exact size, 0, 1, one frame or 2^64-1, k messages, k headers, "
+             "k table entries, heartbeats; Kafka k requests, k topics, one correlation id k times; HTTP k pipelined messages, "
+             "k headers, k cookies, k chunks, k query parameters, HTTP/2 k DATA frames / streams / open streams / header fields / pings), "
+             "each measured at k=64 and k=512 (thorough also 256 and 4096): the allocation at the larger size may not exceed twice "
+             "what the smaller run predicts for that many bytes; the real Dissect "
              "and the later stages run under measurement (TotalAlloc, wall time) and a per-case kill timer; "
              "bound: alloc <= 4096 n + 512 KiB, time <= 2 s + n/100 ms, no panic, returns",
         trusted_base=REDIS_TB + ["runtime.MemStats.TotalAlloc and wall-clock time as measured in the harness process"] + LIB,
@@ -308,7 +314,7 @@ PROPS = {
         proof_modules=["KsVerif.Proofs.C19"],
         families=["sched.emit", "sched.excl"],
         rule="sched.excl: with one goroutine parked between reading the index and incrementing the count, a second Emit on the "
-             "same Emitting must block; the real Emitting.Emit called from 2-3 controlled goroutines on one or two streams sharing AppStats; every "
+             "same Emitting must block (also with three goroutines emitting twice each on an open or a closed stream, the one inside held back while the others run: never two inside at once); the real Emitting.Emit called from 2-3 controlled goroutines on one or two streams sharing AppStats; every "
              "interleaving at the yield points for small N (exhaustive DFS), seeded random schedules up to 4 tasks x 12 "
              "emits; non-trivial = at least two goroutine switches",
         trusted_base=SCHED_TB + LIB,
